@@ -370,11 +370,13 @@ Definition solve (fuel : nat) (kb : kbase) (nd : node) (w : world) : res (node *
     | None => Ok (nd', no_more, w2)
     end.
 
-Fixpoint solve_all_loop (fuel : nat) (kb : kbase) (nd : node) (q : term) (acc : list str) (w : world)
+(* the loop of solve_all: `n` bounds the number of requests (a modelling artefact: the Rust loop has
+   no bound); every request searches with the same fuel *)
+Fixpoint solve_all_loop (n : nat) (fuel : nat) (kb : kbase) (nd : node) (q : term) (acc : list str) (w : world)
   : res (node * list str * world) :=
-  match fuel with
+  match n with
   | O => OutOfFuel
-  | S f =>
+  | S n' =>
       do x <- next kb fuel fuel nd w;
       let '(nd', sol, _, w1) := x in
       let '(stopped, w2) := query_stopped w1 in
@@ -384,7 +386,7 @@ Fixpoint solve_all_loop (fuel : nat) (kb : kbase) (nd : node) (q : term) (acc : 
         | Some s =>
             do r <- replace_variables fuel q s;
             do txt <- format_solution (GCall q) r;
-            solve_all_loop f kb nd' q (acc ++ [txt]) w2
+            solve_all_loop n' fuel kb nd' q (acc ++ [txt]) w2
         | None => Ok (nd', acc, w2)
         end
   end.
@@ -394,7 +396,7 @@ Definition solve_all (fuel : nat) (kb : kbase) (nd : node) (w : world) : res (no
   | None => Panic
   | Some q =>
       let w0 := w_set_flag w false in
-      do x <- solve_all_loop fuel kb nd q [] w0;
+      do x <- solve_all_loop fuel fuel kb nd q [] w0;
       let '(nd', acc, w1) := x in
       let '(stopped, w2) := query_stopped w1 in
       Ok (nd', if stopped then acc ++ [timeout_msg] else acc, w2)
